@@ -79,16 +79,19 @@ def hooks2Spec : EnvSpec :=
 def hooks2State : State :=
   run (init false [1, 2, 3, 4]) [.createBegin 0 hooks2Spec, .createCleanup 0, .createInsert 0, .createSettle 0 {}]
 
+/-- The environment as listed in `hooks2State`. -/
+def hooks2Env : Env :=
+  { id := 0, state := .CONFIGURED, dets := [0], tasks := [1, 2, 3],
+    hooks := [{ task := 2, weight := 10, after := false }, { task := 3, weight := 20, after := false }],
+    calls := 0, pending := 0, started := 0, cancelled := 0, tearing := false }
+
 /-- **Finding destroy_hooks_unreleased**: a plain destroy of a freshly created environment with
     DESTROY hooks at two weights answers success and leaves the weight-10 hook task locked by
     the deleted environment (never released, hence never killed: KillTasks and Cleanup skip
     locked tasks). -/
 theorem C06_finding_destroy_hooks_unreleased : ¬ C06_destroyed_clean_full := by
   intro h
-  have := h hooks2State 0 false false false {} { id := 0, state := .CONFIGURED, dets := [0], tasks := [1, 2, 3],
-    hooks := [{ task := 2, weight := 10, after := false }, { task := 3, weight := 20, after := false }],
-    calls := 0, pending := 0, started := 0, cancelled := 0, tearing := false }
-    (by decide) (by decide) (by decide) (by decide)
+  have := h hooks2State 0 false false false {} hooks2Env (by decide) (by decide) (by decide) (by decide)
   revert this
   decide
 
@@ -215,7 +218,6 @@ theorem C06_teardown_returns_partial (s : State) (k : EnvId) (force : Bool) (hf 
     · simp
     split
     · simp
-    simp only []
     split
     · simp
     · unfold tdFinish
